@@ -25,7 +25,7 @@ def scratch():
 
 
 def run(prop, d, tier, extra):
-    env = dict(os.environ, VERIF_REPO=d)
+    env = dict(os.environ, VERIF_REPO=d, VERIF_NO_EVIDENCE="1")  # never overwrite the evidence of the unchanged tree
     p = subprocess.run([os.path.join(ROOT, "check"), prop, "--tier", tier] + extra, env=env, capture_output=True, text=True)
     return p.returncode, p.stdout + p.stderr
 
